@@ -301,29 +301,49 @@ func (w *World) holds(fn *ssa.Function, v ssa.Value, pol bool, m Matcher, en *en
 			if call == nil {
 				return false
 			}
-			g, sub := w.calleeEnv(call, en)
-			if g == nil {
-				return false
-			}
 			busy[k] = true
 			defer delete(busy, k)
-			for _, blk := range g.Blocks {
-				r, ok := blk.Instrs[len(blk.Instrs)-1].(*ssa.Return)
-				if !ok || idx >= len(r.Results) {
-					continue
-				}
-				if w.ProvablyNonNil(g, r, r.Results[idx]) {
-					continue
-				}
-				if w.guarded(g, r, m, sub, depth-1, busy) {
-					continue
-				}
-				return false
-			}
-			return true
+			return w.errNilImplies(call, idx, m, en, depth, busy)
 		}
 	}
 	return false
+}
+
+// errNilImplies: "the error result idx of call is nil" implies a predicate accepted by m — because every
+// return of the callee that can yield nil is guarded by one, or hands on the verdict of another call for
+// which the same holds (`return d.checkMaxSlots(ctx, tx)` as the last step of a validate phase).
+func (w *World) errNilImplies(call *ssa.Call, idx int, m Matcher, en *env, depth int, busy map[holdKey]bool) bool {
+	if depth <= 0 {
+		return false
+	}
+	g, sub := w.calleeEnv(call, en)
+	if g == nil {
+		return false
+	}
+	for _, blk := range g.Blocks {
+		r, ok := blk.Instrs[len(blk.Instrs)-1].(*ssa.Return)
+		if !ok || idx >= len(r.Results) {
+			continue
+		}
+		if w.ProvablyNonNil(g, r, r.Results[idx]) {
+			continue
+		}
+		if w.guarded(g, r, m, sub, depth-1, busy) {
+			continue
+		}
+		if c2, i2 := errSource(r.Results[idx]); c2 != nil && c2.Parent() == g {
+			e2 := sub.apply(w.ExprOf(r.Results[idx]))
+			nilE := &Expr{Op: "const", Name: "nil"}
+			if m(Pred{E: &Expr{Op: "bin", Name: "==", Args: []*Expr{e2, nilE}}, Pol: true, Fn: g, V: r.Results[idx]}) {
+				continue
+			}
+			if w.errNilImplies(c2, i2, m, sub, depth-1, busy) {
+				continue
+			}
+		}
+		return false
+	}
+	return true
 }
 
 func constBool(c *ssa.Const) bool {
